@@ -92,6 +92,10 @@ def gen_step(rng):
             if k == 'ed':
                 sec.update(creator=ord(rng.choice('xxO')), resv1=0, resv2=0)
         secs.append(sec)
+    # every other section kind as well (Extended User Header, Failing MTMS, Impacted Partition with targets, secondary SRCs with
+    # callouts / MRUs, unknown ids): decoder objects of one PEL must not carry anything over to the next
+    for _ in range(rng.choice([0, 1, 2, 4])):
+        secs.insert(rng.randrange(len(secs) + 1), apel.gen_section(rng))
     p['sections'] = secs
     apel.fix_real_plugins(p)
     data = apel.enc_pel(p)
@@ -280,6 +284,8 @@ def check_damaged_conf(ck, rng, n):
 def check_loader(ck, rng, n):
     from pel.peltool import comp_id
     watch = cachewatch.Watch().install()
+    if not watch.available:     # reported once by the history part
+        return
     tmp = tempfile.mkdtemp(prefix='c19conf_')
     try:
         for k in range(n):
@@ -353,6 +359,10 @@ def run(tier, seed):
                 replies.update(dict(zip(idx, rep)))
             env_on.install()          # ONE process, caches are NOT reset between the steps
             watch = cachewatch.Watch().install()
+            if not watch.available and hnum == 0:
+                ck.disagree('the process-wide state that the model describes (four module tables, component-id table and its flag) is not '
+                            'there in the code: the state model cannot be compared (the histories are still compared with a fresh interpreter)',
+                            {'op': 'state', 'missing': watch.why})
             try:
                 bad_before = False
                 # the model of the update rules: import system + configuration directory as this process finds them, and the look-ups so far
@@ -393,14 +403,15 @@ def run(tier, seed):
                         ck.disagree('a module was imported without its table being asked first, or a missing key was not imported', rp | {'record': bad[:5]})
                     note_patterns(ck, events, seen)
                     lookups = lookups + cachewatch.lookups_of(events)
-                    table_reqs.append(cachewatch.request(caches_env, lookups))
-                    table_real.append(watch.tables())
+                    if watch.available:
+                        table_reqs.append(cachewatch.request(caches_env, lookups))
+                        table_real.append(watch.tables())
                     bad = cachewatch.entries_not_import_results(watch, verified)
                     if bad:
                         ck.fail('a module cache holds an entry that is not the result of importing the module', rp | {'entries': bad}, 'cache_incoherent')
                     if real[0] != 'doc':
                         bad_before = True
-                for i, (treal, rep) in enumerate(zip(table_real, lean_batch(table_reqs))):
+                for i, (treal, rep) in enumerate(zip(table_real, lean_batch(table_reqs) if table_reqs else [])):
                     d = cachewatch.diff_tables(treal, cachewatch.parse_tables(rep))
                     ck.count('table states compared with the model of the update rules')
                     if d:
